@@ -20,18 +20,20 @@ use crate::dic::word_id::WordId;
 #[derive(Copy, Clone, Eq, PartialEq, Debug)]
 pub struct NodeIdx {
     end: u16,
-    index: u16,
+    // the number of nodes which end on the same boundary is not limited to 16 bits:
+    // every start of a long run of one character class contributes grouped OOV nodes
+    index: u32,
 }
 
 impl NodeIdx {
     pub fn empty() -> NodeIdx {
         NodeIdx {
             end: u16::MAX,
-            index: u16::MAX,
+            index: u32::MAX,
         }
     }
 
-    pub fn new(end: u16, index: u16) -> NodeIdx {
+    pub fn new(end: u16, index: u32) -> NodeIdx {
         NodeIdx { end, index }
     }
 
@@ -39,7 +41,7 @@ impl NodeIdx {
         self.end
     }
 
-    pub fn index(&self) -> u16 {
+    pub fn index(&self) -> u32 {
         self.index
     }
 }
